@@ -2,8 +2,8 @@ package symex
 
 import (
 	"fmt"
-	"regexp"
 	"go/types"
+	"regexp"
 	"strings"
 	"time"
 
